@@ -32,7 +32,7 @@ type Config struct {
 	MapScr    bool
 	Dom       int // var domain (values 0..Dom-1); case literals range a bit wider
 
-	WCmd, WIf, WWhile, WInf, WDo, WSwitch, WLabel, WGoto, WCall, WEnd, WReturn, WBreak, WContinue int
+	WCmd, WIf, WWhile, WInf, WDo, WSwitch, WLabel, WGoto, WCall, WEnd, WReturn, WBreak, WContinue, WPory int
 
 	PElif, PElse    float64
 	PText, PMoves   float64
@@ -123,6 +123,7 @@ func DrawConfig(r *rng.R, p Profile, thorough bool) *Config {
 	c.WReturn = on(0.4, r.Range(1, 2))
 	c.WBreak = on(0.6, r.Range(1, 4))
 	c.WContinue = on(0.6, r.Range(1, 4))
+	c.WPory = on(0.3, r.Range(1, 3))
 	c.PElif = r.Float() * 0.6
 	c.PElse = r.Float()
 	c.PText = on01(r, 0.3, 0.25)
@@ -147,7 +148,7 @@ func DrawConfig(r *rng.R, p Profile, thorough bool) *Config {
 		c.PBigExpr = 0.9
 		c.MaxDepth = r.Range(1, 2)
 		c.Budget = r.Range(3, 12)
-		c.WSwitch, c.WLabel, c.WGoto, c.WCall = 0, 0, 0, 0
+		c.WSwitch, c.WLabel, c.WGoto, c.WCall, c.WPory = 0, 0, 0, 0, 0
 		c.NScripts = 1
 		c.MapScr = false
 		c.PText, c.PMoves = 0, 0
@@ -502,9 +503,9 @@ func (g *gen) block(depth int, ctx bctx, brace bool) []*model.Stmt {
 	var out []*model.Stmt
 	for i := 0; i < n && g.left > 0; i++ {
 		g.left--
-		w := []int{c.WCmd, c.WIf, c.WWhile, c.WInf, c.WDo, c.WSwitch, c.WLabel, c.WGoto, c.WCall, c.WEnd, c.WReturn, c.WBreak, c.WContinue}
+		w := []int{c.WCmd, c.WIf, c.WWhile, c.WInf, c.WDo, c.WSwitch, c.WLabel, c.WGoto, c.WCall, c.WEnd, c.WReturn, c.WBreak, c.WContinue, c.WPory}
 		if depth >= c.MaxDepth {
-			w[1], w[2], w[3], w[4], w[5] = 0, 0, 0, 0, 0
+			w[1], w[2], w[3], w[4], w[5], w[13] = 0, 0, 0, 0, 0, 0
 		}
 		if !ctx.inBreak {
 			w[11] = 0
@@ -592,6 +593,8 @@ func (g *gen) block(depth int, ctx bctx, brace bool) []*model.Stmt {
 			if !r.P(c.PAfterBreak) {
 				return out
 			}
+		case 13:
+			out = append(out, g.poryStmt(depth, ctx))
 		case 12:
 			if i == n-1 || r.P(0.7) {
 				out = append(out, &model.Stmt{K: model.KContinue})
@@ -673,4 +676,68 @@ func (g *gen) resolveGotos() {
 			c.Args[0].Toks = []string{targets[r.Intn(len(targets))]}
 		}
 	}
+}
+
+var poryKeys = []string{"GAME", "LANG"}
+var poryVals = map[string][]string{"GAME": {"RUBY", "SAPPHIRE", "EMERALD"}, "LANG": {"EN", "DE"}}
+
+// poryStmt draws a poryswitch statement; the file's switch values are fixed on first use.
+func (g *gen) poryStmt(depth int, ctx bctx) *model.Stmt {
+	r := g.r
+	if g.f.Switches == nil {
+		g.f.Switches = map[string]string{}
+		for _, k := range poryKeys {
+			vs := poryVals[k]
+			g.f.Switches[k] = vs[r.Intn(len(vs))]
+			if r.P(0.15) {
+				g.f.Switches[k] = "OTHER"
+			}
+		}
+	}
+	key := poryKeys[r.Intn(len(poryKeys))]
+	s := &model.Stmt{K: model.KPory, PKey: key}
+	vals := poryVals[key]
+	perm := r.Perm(len(vals))
+	n := r.Range(1, len(vals))
+	hasCur := false
+	for i := 0; i < n; i++ {
+		v := vals[perm[i]]
+		if v == g.f.Switches[key] {
+			hasCur = true
+		}
+		s.PCases = append(s.PCases, g.poryCase(v, depth, ctx))
+	}
+	if !hasCur || r.P(0.4) {
+		s.PCases = append(s.PCases, g.poryCase("_", depth, ctx))
+	}
+	return s
+}
+
+func (g *gen) poryCase(val string, depth int, ctx bctx) *model.PCase {
+	r := g.r
+	c := &model.PCase{Val: val}
+	if r.Bool() {
+		c.Brace = true
+		c.Body = g.block(depth+1, ctx, true)
+		return c
+	}
+	// ':' form: exactly one statement; keep to statement kinds that stand alone
+	var st *model.Stmt
+	for tries := 0; tries < 8 && st == nil; tries++ {
+		b := g.block(depth+1, bctx{inLoop: ctx.inLoop, inBreak: ctx.inBreak}, false)
+		for _, x := range b {
+			switch x.K {
+			case model.KCmd, model.KIf, model.KWhile, model.KDoWhile, model.KSwitch:
+				st = x
+			}
+			if st != nil {
+				break
+			}
+		}
+	}
+	if st == nil {
+		st = &model.Stmt{K: model.KCmd, Cmd: g.command()}
+	}
+	c.Body = []*model.Stmt{st}
+	return c
 }
